@@ -134,11 +134,16 @@ def gen_plan(rng, tier, i, seed):
     elif r < 0.35:
         n, v = rng.choice(MALFORMED)
         extra = ["malformed", n, v]
+    if extra:
+        # the extra entry must be the only one of its name (a dict cannot hold the name twice)
+        settings = [x for x in settings if x[0] != extra[1]]
+        options = [x for x in options if x[0] != extra[1]]
     # history: an earlier version of the same profile file (other values) was loaded by the same process
     prior = route in ("roundtrip", "options", "options_explicit") and rng.random() < 0.5
     return {"w": gen_world(seed, i % cfg["worlds"], exome=(route == "exome")), "route": route,
             "settings": settings, "options": options, "prior": prior,
             "exome_name": rng.choice(["exome", "wxs", "wes"]), "exome_cli": rng.random() < 0.5,
+            "extra_pos": rng.choice(["first", "first", "middle", "last"]),
             "extra": extra, "dashes": rng.random() < (0.6 if route in ("cli", "profile_cli", "dump") else 0.3),
             "write_hashseed": rng.choice([0, 1, 2, 3]), "read_hashseed": rng.choice([0, 1, 2, 3, 4, 5])}
 
@@ -160,7 +165,8 @@ def execute(plan, runner, rundir):
     common = {"worlddir": worlddir, "man": man, "rundir": rundir, "gene": w["world"]["genes"][0]["name"],
               "route": plan["route"], "settings": plan["settings"], "options": plan["options"],
               "extra": plan["extra"], "dashes": plan["dashes"], "prior": plan.get("prior", False),
-              "exome_name": plan.get("exome_name"), "exome_cli": plan.get("exome_cli")}
+              "exome_name": plan.get("exome_name"), "exome_cli": plan.get("exome_cli"),
+              "extra_pos": plan.get("extra_pos")}
     res = {}
     if plan["route"] in ("roundtrip", "dump", "options", "options_explicit", "profile_cli"):
         res["write"] = runner.segment(dict(common, kind="write", hashseed=plan["write_hashseed"]))
@@ -362,14 +368,16 @@ def _profile_attrs(p):
     return out
 
 
-def _options_yaml(src, dst, options):
+def _options_yaml(src, dst, options, unknown_first=False):
     """Copy a profile YAML adding an `options:` section (hand-written by the user)."""
     import yaml
 
     d = yaml.safe_load(open(src))
     d["options"] = {n: given for n, given, e, typ in options}
+    if unknown_first:
+        d["options"] = dict([("lab_note", "kept for the record")] + list(d["options"].items()))
     with open(dst, "w") as f:
-        f.write(yaml.dump(d, default_flow_style=None))
+        f.write(yaml.dump(d, default_flow_style=None, sort_keys=False))
 
 
 def run_segment(seg):
@@ -392,7 +400,11 @@ def run_segment(seg):
     route = seg["route"]
     params = {n: given for n, given, e, typ in seg["settings"]}
     if seg["extra"]:
-        params[seg["extra"][1]] = seg["extra"][2]
+        # the unknown / malformed entry comes first, last or in between (dict order = order of application)
+        items = list(params.items())
+        at = {"first": 0, "last": len(items)}.get(seg.get("extra_pos") or "last", len(items) // 2)
+        items.insert(at, (seg["extra"][1], seg["extra"][2]))
+        params = dict(items)
     if seg["kind"] == "write":
         out = {}
         if route == "roundtrip":
@@ -422,7 +434,8 @@ def run_segment(seg):
             out["options_text"] = doc.get("options", {}) if isinstance(doc, dict) else {}
             out["wrote_profile"] = isinstance(doc, dict) and "neutral" in doc
         elif route in ("options", "options_explicit"):
-            _options_yaml(os.path.join(wd, man["profile_yml"]), os.path.join(rd, "opts.yml"), seg["options"])
+            _options_yaml(os.path.join(wd, man["profile_yml"]), os.path.join(rd, "opts.yml"), seg["options"],
+                          unknown_first=(seg.get("extra_pos") == "first"))
         elif route == "dump":
             rec = O.run_main(["genotype", bam, "--gene", db, "--profile", refbam, "-n", man["neutral"],
                               "--debug", os.path.join(rd, "dbg"), "--solver", "cbc"])
